@@ -198,7 +198,7 @@ def validate_traces(traces, module='Trace_EAOModel', timeout=1800, keep=None, sp
         shutil.rmtree(wd, ignore_errors=True)
 
 
-def portfolio_trace(portf, op, res, out, K=1000, tol=5):
+def portfolio_trace(portf, op, res, out, K=1000, tol=5, chk=('balance', 'accounting')):
     """trace for Trace_Portfolio (any asset types): reported dispatch per (asset, node, step), the dispatch implied by x
     through the mapping, the DCF table, -c_a.x_a and the value"""
     nodes = list(portf.nodes.keys())
@@ -236,4 +236,4 @@ def portfolio_trace(portf, op, res, out, K=1000, tol=5):
     scale = max(1.0, float(np.abs(c).max()) if len(c) else 1.0)
     return dict(T=T, nodes=nodes, NA=len(assets), attach=[[nidx[n] + 1 for n in a.node_names if n in nidx] for a in assets],
                 steps=steps, cx=cx, rval=fx(float(out['summary'].loc['value', 'Values']), K), tol=tol,
-                vtol=int(tol * scale * (T + 2) * 2 + 1e-6 * K * abs(float(res.value)) + 2), names=[a.name for a in assets])
+                vtol=int(tol * scale * (T + 2) * 2 + 1e-6 * K * abs(float(res.value)) + 2), names=[a.name for a in assets], chk=list(chk))
